@@ -375,7 +375,7 @@ def execute(plan):
                 import andes
                 buf = io.StringIO()
                 andes.io.json.write(ss, buf)
-                s2 = andes.System(default_config=True, no_output=True)
+                s2 = andes.System(default_config=True, no_output=True, autogen_stale=False)
                 andes.io.json.read(s2, io.StringIO(buf.getvalue()))
                 s2.setup()
                 probes['reload'] = probes.get('reload', 0) + 1
